@@ -577,6 +577,12 @@ func (g *genv) exprD(k gkind, depth int, plain bool) *E {
 			)
 		}
 	case gNum:
+		if !plain && g.p.Failing && g.p.Filters {
+			// fails exactly when the divisor (a binding, or a loop variable) is zero
+			opts = append(opts, func() *E {
+				return Flt(LInt(6), "divided_by", g.exprD(gInt, 0, true))
+			})
+		}
 		if !plain && g.p.Filters {
 			opts = append(opts, func() *E {
 				return Flt(g.exprD(gInt, depth-1, false), []string{"plus", "minus", "times"}[g.pick("ar", 3)], g.plain(gInt))
